@@ -177,30 +177,10 @@ func buildDLTransport(pdu []byte, pos, mask int) *ngapType.DownlinkNASTransport 
 	return t
 }
 
-// outcome of running the plain codec on some octets: used only to LABEL a failure with its root cause
+// what the UE handed back, reduced to octets
 type plainOutcome struct {
 	failed bool
 	enc    []byte
-}
-
-func plainOutcomeOf(b []byte) (o plainOutcome) {
-	defer func() {
-		if recover() != nil {
-			o = plainOutcome{failed: true}
-		}
-	}()
-	if len(b) == 0 {
-		return plainOutcome{failed: true}
-	}
-	_, enc, err := plainCanonical(b)
-	if err != nil {
-		return plainOutcome{failed: true}
-	}
-	return plainOutcome{enc: enc}
-}
-
-func (a plainOutcome) same(b plainOutcome) bool {
-	return a.failed == b.failed && bytes.Equal(a.enc, b.enc)
 }
 
 func c10Oracle(c c10Case) (v ev.Verdict) {
